@@ -561,6 +561,8 @@ def parseSegLoop (S : Schema) (es : List XEntry)
             | k + 1, b, acc, m =>
               if b.isEmpty || !(decide ((acc.length : Int) < cnt)) then .ok (m, acc) else do
                 let gr ← pseg g b
+                -- `if end == 0: break` (/repo 1a01534): what follows is not an instance of this group; the count check below reports it
+                if gr.1 == 0 then .ok (m, acc) else
                 groups k (b.drop gr.1) (acc ++ [gr.2]) (m + gr.1)
           do
             let gr ← groups (cnt.toNat + 1) (bs.drop cr.1) [] cr.1
